@@ -301,7 +301,16 @@ func calleeSortsFirst(c *Check, rel, fn string, paramIdx int) string {
 		return "numericNodelets not found"
 	}
 	nfd := nn.Syntax().(*ast.FuncDecl)
-	p0 := nfd.Type.Params.List[0].Names[0].Name
+	// the tag list: the parameter of slice type (whatever its position)
+	p0 := ""
+	for _, fl := range nfd.Type.Params.List {
+		if _, isSlice := fl.Type.(*ast.ArrayType); isSlice && len(fl.Names) > 0 && p0 == "" {
+			p0 = fl.Names[0].Name
+		}
+	}
+	if p0 == "" {
+		return "numericNodelets has no slice parameter"
+	}
 	bad := ""
 	ast.Inspect(nfd.Body, func(n ast.Node) bool {
 		if call, ok := n.(*ast.CallExpr); ok && strings.HasSuffix(exprStr(c.P.Fset, call.Fun), ".collapsedTags") {
